@@ -50,6 +50,7 @@ type Driver struct {
 	labels  []map[string][]*gogen.Label // per function body: label name -> labels in definition order
 	labelAt []map[*ast.LabeledStmt]*gogen.Label
 	Steps   int
+	Cur     ast.Node // statement / declaration being translated (for diagnostics of position-less panics)
 }
 
 type unsupported string
@@ -773,6 +774,7 @@ func (d *Driver) stmts(list []ast.Stmt) {
 }
 
 func (d *Driver) stmt(s ast.Stmt) {
+	d.Cur = s
 	d.stmt0(s)
 	if d.OnStmt != nil {
 		d.OnStmt(s)
@@ -821,6 +823,9 @@ func (d *Driver) stmt0(s ast.Stmt) {
 			d.multi(len(v.Lhs), v.Rhs)
 			d.do("AssignWith", -len(v.Lhs)-len(v.Rhs), func() { cb.AssignWith(len(v.Lhs), len(v.Rhs), v) })
 		default:
+			if len(v.Lhs) != 1 || len(v.Rhs) != 1 {
+				panic(fmt.Errorf("assignment operation %s requires single-valued expressions", v.Tok))
+			}
 			d.ref(v.Lhs[0])
 			d.expr(v.Rhs[0])
 			op := assignOps[v.Tok]
@@ -1063,6 +1068,9 @@ func (d *Driver) body(b *ast.BlockStmt) {
 // declarations
 
 func (d *Driver) genDecl(g *ast.GenDecl, pkgLevel bool) {
+	if pkgLevel {
+		d.Cur = g
+	}
 	cb := d.CB
 	scope := cb.Scope()
 	switch g.Tok {
@@ -1341,6 +1349,7 @@ type Result struct {
 	WriteErr  error
 	Pkg       *gogen.Package
 	Steps     int
+	At        ast.Node // what the driver was translating when a panic occurred
 }
 
 // Accepted reports whether the builder reported nothing at all.
@@ -1443,6 +1452,7 @@ func Build(fset *token.FileSet, files []*ast.File, srcs map[string][]byte, o Opt
 			if e := recover(); e != nil {
 				r.Panic = e
 				r.PanicKind = ClassifyPanic(e)
+				r.At = d.Cur
 				if r.PanicKind != "reported" || DebugStacks {
 					r.Stack = stage + "\n" + string(debug.Stack())
 				}
